@@ -66,3 +66,14 @@ Theorem C10_growth_at_rest : forall mx mn progs sched,
   (q s <> [] -> 1 <= nb_threads s).
 Proof. exact growth_at_rest. Qed.
 Print Assumptions C10_growth_at_rest.
+
+(** the growth clause in the form of DESIGN 4/C10: at rest, a waiting task implies a serving worker outside
+    every task body, or max_threads task bodies running *)
+Theorem C10_growth_progress : forall mx mn progs sched,
+  valid_cfg mx mn ->
+  let s := run sched (init mx mn progs) in
+  start_done s = true -> (forall c, ewin (cpc (cs s c)) = false) -> q s <> [] ->
+  (exists w, (w < next_w s)%nat /\ serving (ws s w) = true /\ in_body (ws s w) = false) \/
+  Z.of_nat (count in_body (ws s) (next_w s)) = mx.
+Proof. exact growth_progress. Qed.
+Print Assumptions C10_growth_progress.
